@@ -62,6 +62,12 @@ def main():
         tb = traceback.format_exc()
         sys.stdout.write(tb)
         ctx.report_broken('check-machinery', 'exception in tools/props/%s.py' % a.pid, tb)
+    if tier == 'thorough' and not ctx.violations and os.path.exists(os.path.join(vlib.COQ, 'props', a.pid + '.vo')):
+        # independent re-check of the compiled theorems (coqchk) once per thorough run
+        ok, axioms, summary = vlib.coqchk(a.pid)
+        ctx.cov['coqchk'] = dict(ok=ok, axioms=axioms, summary=summary)
+        if not ok:
+            ctx.report_broken('proof', 'coqchk props/%s.vo' % a.pid, summary)
     sys.exit(ctx.finish(getattr(mod, 'LEVEL', 'proof')))
 
 
